@@ -31,9 +31,9 @@ PROPS["C07"] = {
                   "File-system side: model of the path pipeline of pkg/app/fs.go (rewriters, stripTrailingSlashes, NUL test, /../ guard, os.Open of "
                   "root+path over an abstract tree with the kernel's component-wise resolution); proved for every Host header, request target, strip "
                   "count and tree: the stock rewriters never panic, the rewritten path and ctx.Path() afterwards are contained, what is appended to "
-                  "FS.Root is empty or contained, and every file or listing served lies inside the root (serve_inside_root); the same for an arbitrary "
-                  "contract-abiding custom rewriter is false of the code (custom_rewrite_inside_fails_at, known finding) and proved under the "
-                  "excluding hypothesis. The model is compared with the real handler per case and 'served from inside the root' is evaluated on "
+                  "FS.Root is empty or contained, and every file or listing served lies inside the root (serve_inside_root); the same for ANY bytes an "
+                  "application-supplied rewriter returns (custom_rewrite_inside: 400/500 or inside the root; true since repo commit bd67071, which "
+                  "added the trailing-/.. and leading-slash tests; the former witnesses are regression examples). The model is compared with the real handler per case and 'served from inside the root' is evaluated on "
                   "what the real handler returned; the source skeletons of the mirrored functions are regenerated and pinned (model_matches_gen_C07).",
     "level_note": "Trusted: Lean kernel, table translator (Hex2intTable), harness/driver. Not proved: equality with the stack reference "
                   "(checked per case), CleanPath containment (checked per case). Windows separator branch not modelled. File-system side: the OS is "
